@@ -21,7 +21,7 @@ pub fn def() -> CheckDef {
                reuse of names, names x/xx/xxx in permuted roles, unknown propositions, wild-cards, domains) on networks with hostile variable \
                names: library Ok/Err must equal the reference binder's verdict; an accepted result must equal the reference renaming (variable of \
                a quantifier at nesting depth d is `x` repeated d times), be alpha-equivalent to the input (de-Bruijn forms), use exactly \
-               max-nesting-depth distinct names (also via collect_unique_hctl_vars), and be a fixed point of preprocessing. Non-trivial: >= 2 \
+               max-nesting-depth distinct names (also via collect_unique_hctl_vars), and be a fixed point of preprocessing; one accepted closed formula in eight is handed to analyse_formulae in a list with a taller variable-free (and a shallower one-variable) companion, which must succeed. Non-trivial: >= 2 \
                quantifiers; distinct by input text.",
         assumptions: &["error messages are not compared, only Ok vs Err"],
         cases: |t| if t == Tier::Quick { 40_000 } else { 3_000_000 },
